@@ -485,6 +485,38 @@ fn build_registry() -> Registry {
         s.marks = a.entry_offsets.iter().flat_map(|o| [*o as u32, *o as u32 + 4, *o as u32 + 8, *o as u32 + 20, *o as u32 + 24, *o as u32 + 128]).collect();
         seeds.push(s);
     }
+    {
+        // a dat file whose stored (uncompressed) blocks have tens of kilobytes of file behind them: a damaged
+        // length field is then not stopped by the end of the file within the first reads
+        let raw = |n: usize, k: u64| BlockSpec { data: crate::build::mdl::random_bytes(k, n), mode: Mode::Raw };
+        let std_entry = sqpack::standard_entry(&[raw(100, 1), raw(16000, 2), raw(16000, 3), raw(16000, 4)], 0, &[]);
+        let tex_header = {
+            let mut w = W::new();
+            w.u32(0x0080_0000).u32(0x1450).u16(64).u16(64).u16(1).u16(1).u32(0).u32(1).u32(2);
+            w.pad_to(80);
+            w.b
+        };
+        let tex_entry = sqpack::texture_entry(&tex_header, &[vec![raw(8192, 5), raw(8192, 6)]], 0);
+        let tail = sqpack::standard_entry(&[raw(16000, 7), raw(16000, 8), raw(16000, 9)], 0, &[]);
+        let align = |n: usize| (n + 127) / 128 * 128;
+        let o1 = 2048u64;
+        let o2 = o1 + align(std_entry.len()) as u64;
+        let o3 = o2 + align(tex_entry.len()) as u64;
+        let dat = sqpack::dat_file(0, -1, &[(o1, std_entry), (o2, tex_entry), (o3, tail)], 0);
+        let mut offs: Vec<u8> = vec![];
+        for o in [o1, o2, o3] {
+            offs.extend_from_slice(&o.to_le_bytes());
+        }
+        // block headers: standard entry header is 128 bytes, blocks of 128 / 16128 bytes; texture entry header 128 bytes + 80-byte texture header
+        let mut marks = vec![];
+        for b in [o1 + 128, o1 + 256, o1 + 256 + 16128, o2 + 128 + 80, o3 + 128] {
+            marks.extend_from_slice(&[b as u32, b as u32 + 8, b as u32 + 12]);
+        }
+        let mut s = SeedFile::new("dat", "long-raw-blocks", dat.clone()).magic(8);
+        s.args = vec![dat, offs, vec![0]];
+        s.marks = marks;
+        seeds.push(s);
+    }
     Registry::new(seeds)
 }
 
@@ -626,6 +658,11 @@ fn archive_faults(ctx: &Ctx) -> Vec<RCase> {
         } else {
             v.push(gd_case(&format!("archive:{}", note), recipe, String::new()));
         }
+    }
+    // directory names in valid UTF-8 whose characters are longer than one byte, so that a fixed byte position (the
+    // digit behind "ex") falls inside a character
+    for name in ["ex\u{e9}", "\u{65e5}\u{672c}\u{8a9e}", "ex\u{663}", "a\u{e9}1", "\u{e9}", "\u{e9}\u{e9}\u{e9}", "ex1\u{e9}", "e\u{1F600}", "\u{1F600}1"] {
+        v.push(gd_case("archive:multi-byte-directory-name", format!("d {}", util::hex(format!("game/sqpack/{}", name).as_bytes())), String::new()));
     }
     // direct index / dat entry points: missing path, directory
     let q = a.queries.join("\n").into_bytes();
@@ -807,7 +844,7 @@ fn post(_: &Ctx) {
 pub fn property() -> Property {
     Property {
         id: "C18",
-        rule: "cases = (entry point, valid seed asset or archive, corruption) executed in an isolated worker process. Entry points: from_existing of model, material, shader package (+find_node for every listed and some absent selectors), texture, EXH, EXD (+read_row for every indexed id, page ids and absent ids; header and page corrupted separately), skeleton, deformer (+get_deform_matrices for all ordered pairs of body ids), scaling table, terrain, staining template, dictionary, layer group (empty, fixture, and one with instance objects), effect, uld/sgb/scd/hwc/iwc/tmb/skp/schd/phyb/pap headers, SqPack database; SqPackIndex::from_existing+exists/find_entry, SqPackData::read_from_offset at entry and stray offsets, GameData::from_existing/exists/find_offset/extract on a synthetic installation. Seeds: output of the C05/C06/C13/C14/C16 generators for fixed internal seeds, the repository's sample model and layer group, hand-built files for the remaining formats, an installation with standard/texture/model entries, index and index2, and an expansion. Corruptions: every truncation point; every offset x width {1,2,4,8} x value {0, 1, 0x7F.., 0x80.., 0xFF.., +1, -1} x byte order; random mutation compositions; random blobs behind intact magic; texture headers generated from the grammar (every format, each dimension from boundary values or free, any attribute, payload absent / short / present); shader packages queried with the selectors of the intact package's nodes and aliases (every package has an alias of its last node); cyclic links (every deformer link / item link to every node, dictionary inner nodes and entry fields); archive fault sequences before opening and between open and read (truncation at every structure boundary +-1, every header field corrupted, files removed / replaced by directories / emptied, stray and oddly named files and directories incl. non-UTF-8 names, missing version files, expansion removed while open); leak probes (damaged deflate streams and wrong declared sizes in standard, texture and model entries, 120 repetitions each, growth measured over the last 90). Oracle: worker outcome must be value or ordinary failure -- no panic, abort, stack overflow, more than 10 s CPU, live heap above max(64 MiB, 256 x input), or per-call heap growth. Non-trivial: input differs from the seed, is non-empty and keeps the seed's magic; distinct by hash of (entry, arguments).",
+        rule: "cases = (entry point, valid seed asset or archive, corruption) executed in an isolated worker process. Entry points: from_existing of model, material, shader package (+find_node for every listed and some absent selectors), texture, EXH, EXD (+read_row for every indexed id, page ids and absent ids; header and page corrupted separately), skeleton, deformer (+get_deform_matrices for all ordered pairs of body ids), scaling table, terrain, staining template, dictionary, layer group (empty, fixture, and one with instance objects), effect, uld/sgb/scd/hwc/iwc/tmb/skp/schd/phyb/pap headers, SqPack database; SqPackIndex::from_existing+exists/find_entry, SqPackData::read_from_offset at entry and stray offsets, GameData::from_existing/exists/find_offset/extract on a synthetic installation. Seeds: output of the C05/C06/C13/C14/C16 generators for fixed internal seeds, the repository's sample model and layer group, hand-built files for the remaining formats, an installation with standard/texture/model entries, index and index2, and an expansion, a dat file whose stored blocks have tens of kilobytes of file behind them. Corruptions: every truncation point; every offset x width {1,2,4,8} x value {0, 1, 0x7F.., 0x80.., 0xFF.., +1, -1} x byte order; random mutation compositions; random blobs behind intact magic; texture headers generated from the grammar (every format, each dimension from boundary values or free, any attribute, payload absent / short / present); shader packages queried with the selectors of the intact package's nodes and aliases (every package has an alias of its last node); cyclic links (every deformer link / item link to every node, dictionary inner nodes and entry fields); archive fault sequences before opening and between open and read (truncation at every structure boundary +-1, every header field corrupted, files removed / replaced by directories / emptied, stray and oddly named files and directories incl. non-UTF-8 names and names made of multi-byte characters, missing version files, expansion removed while open); leak probes (damaged deflate streams and wrong declared sizes in standard, texture and model entries, 120 repetitions each, growth measured over the last 90). Oracle: worker outcome must be value or ordinary failure -- no panic, abort, stack overflow, more than 10 s CPU, live heap above max(64 MiB, 256 x input), or per-call heap growth. Non-trivial: input differs from the seed, is non-empty and keeps the seed's magic; distinct by hash of (entry, arguments).",
         assumptions: &["files a case writes are capped at 16 MiB by RLIMIT_FSIZE", "wall-clock time is not judged; the CPU budget is 10 s per case", "stack overflow is observed on the worker's 8 MiB main-thread stack"],
         pre: None,
         parts: vec![
